@@ -247,13 +247,13 @@ theorem commands_outside_total_x :
 
 /-- T-C17.5c (extended) TOTALITY ON EVERY LIST OF TOKENS.  For the 44 sub-commands with standard options or an
 inline body, EVERY token list (abbreviations, `=`, clusters, `--`, unknown options, `-h`, …), either tool: the
-extended interpreter answers with what is built (a library call / the inline formula), a CLIError, or the help exit.
-The only other answer is the TypeError that escapes `cli()` when a single-argument option holds the empty list —
-which happens only through CPython 3.12.1's removal of a lone `--` (`hasQuirk`; `cnfgen stone 2 pyramid 2
---sparse=--`); never `unsupported`, never another exception. -/
+extended interpreter answers with what is built (a library call / the inline formula), a CLIError, or the help exit —
+never `unsupported`, never an exception that escapes `cli()`.  (A single-argument option that holds the empty list —
+CPython 3.12.1's removal of a lone `--`, `cnfgen stone 2 pyramid 2 --sparse=--` — makes the helper raise TypeError,
+which `cli()` reports as a CLIError since the fix 45e8e26: `quirkCrash`.) -/
 theorem dispatch_total_all_tokens (tool : String) (ord : List String → Nat) (s : CliSpec) (hs : s ∈ cliSpecs)
     (hc : s.standard = true ∨ s.inline = true) (argv : List String) :
-    Answers s argv (dispatchSpecX tool ord s argv) := by
+    Answers (dispatchSpecX tool ord s argv) := by
   have hsx : s.supportedX = true := by
     unfold CliSpec.supportedX CliSpec.supported
     rcases hc with h | h <;> simp [h]
@@ -271,9 +271,9 @@ theorem dispatch_total_all_tokens (tool : String) (ord : List String → Nat) (s
     have h2 := (List.all_eq_true.1 standard_commands_totalClassExt) s (List.mem_filter.2 ⟨hs, hstd⟩)
     exact dispatchX_total_std tool ord s h2 h1.1.2 h1.2 hgood argv
 
-/-- the quirk really occurs (and only there the TypeError): `stone 2 pyramid 2 --sparse=--` -/
+/-- the quirk really occurs: `stone 2 pyramid 2 --sparse=--` (TypeError in the helper, reported as a CLIError) -/
 example : dispatchNamedX "cnfgen" (fun _ => 4) "formula" "stone" ["2", "pyramid", "2", "--sparse=--"] =
-    .error (.crash "TypeError") := by decide +kernel
+    .error .cliError := by decide +kernel
 example : dispatchNamedX "cnfgen" (fun _ => 4) "formula" "stone" ["2", "pyramid", "2", "--sp=2"] =
     .ok (.call ⟨"SparseStoneFormula", [.graph "dag" ["pyramid", "2"],
       .opaque "bipartite_random_left_regular(nvertices, nstones, degree)"],
